@@ -38,13 +38,13 @@ def make_cases(tier, rng):
         multi = [p for p in pairs if len(set(p[0]) & set(p[1])) >= 2]
         pick = multi + rng.sample([p for p in pairs if p not in multi], 90)
     else:
-        pick = pairs * 3
+        pick = pairs * 40
     for H, S in pick:
         add({"layer": "pair", "host": H, "host_form": form_for(rng, H), "served": served_of(S), "served_form": form_for(rng, S),
              "grpc_factory": rng.random() < 0.7, "no_list": False,
              "tokens": [{"text": str(v), "val": v, "valid": True} for v in H]})
     # the plugin alone, with raw lists a real host never sends
-    n_raw = 120 if tier == "quick" else 900
+    n_raw = 120 if tier == "quick" else 20000
     for _ in range(n_raw):
         S = rng.choice(subs)
         kind = rng.choice(["nolist", "wellformed", "partly_invalid", "duplicates", "unsorted", "empty"])
